@@ -99,6 +99,7 @@ def check_model(text, rng, want=8, tier="quick", remove_unused=False):
         out["status"] = "violated"
         v = {"kind": "codegen_raises", "detail": {"exc": co.describe(), "site": C.trace_site(co.exc, 4)}}
         out["violations"].append(v)
+        out["_ctx"] = {"ode": ode, "ref": ref}
         return out
     cn["codegen_s"] = round(co.wall, 3)
     try:
